@@ -418,6 +418,11 @@ func (k *Kernel) serveConn(cn *Conn) {
 				w.aborted = true
 			}
 		}()
+		if d := k.Plan.ServerDeadlineMs; d > 0 {
+			ctx, cancel := context.WithTimeout(req.Context(), time.Duration(d)*time.Millisecond)
+			defer cancel()
+			req = req.WithContext(ctx)
+		}
 		k.mux.ServeHTTP(w, req)
 	}()
 	if w.aborted {
